@@ -379,7 +379,7 @@ def check_attr_shapes(case, im):
 
 def run(chk):
     chk.prove([])
-    n, per = (500, 4) if chk.thorough else (100, 3)
+    n, per = (400, 4) if chk.thorough else (100, 3)
     cases = bc.gen_cases(chk, n, per, files=False)
     results = bc.run_impl(cases)
     vals, errs = bc.eval_model("C01", results, [bc.build_expr, spec_expr, spec_build_expr, wfg_expr], imports=SPEC_IMPORTS)
@@ -394,7 +394,7 @@ def run(chk):
         chk.stat("grammars: %s" % ("in the theorem's class (wfg)" if not tags else "outside wfg"))
         for t in sorted(tags):
             chk.stat("grammar has: " + t)
-        for what in check_modifiers(case, res) + check_compiled(case, res) + check_metaattrs(res):
+        for what in check_modifiers(case, res) + check_compiled(case, res) + check_metaattrs(res) + bc.check_kinds(case, res):
             failures.append({"case": {"grammar": case["grammar"], "opts": case["opts"]}, "what": what, "tags": []})
         for ii, (text, run_) in enumerate(zip(case["inputs"], res["runs"])):
             if run_.get("timeout") or run_.get("unsupported"):
